@@ -7,6 +7,10 @@ UNITS = {
     "A.cont": {"pkg": "motion"},
     "A.bad": {"pkg": "motion"},
     "A.fault": {"pkg": "motion"},
+    "A.det": {"pkg": "motion"},
+    "A.pair": {"pkg": "motion"},
+    "A.ffc": {"pkg": "motion"},
+    "A.dyn": {"pkg": "motion"},
 }
 
 _EXPL = "exploration"
@@ -46,4 +50,24 @@ PROPS = {
             "level_note": _NOTE_A,
             "technique": "deterministic simulation: seeded histories, paired re-executions (with/without requests, recorder, window)",
             "required_probes": ["continuous-file-complete", "test-recording-complete", "test-recording-during-motion-recording", "window-configured", "camera-reset"]},
+    "C07": {"level": _EXPL, "units": ["A.det"], "quick_s": 20, "thorough_s": 360,
+            "level_text": "seeded histories against a reference detector written from the statement; boundary-directed generator (delta, count, temp-thresh +-1); no fault/schedule search behind it (the property has none)",
+            "level_note": _NOTE_A,
+            "technique": "seeded history generation + executable reference model (simulator contributes histories only)",
+            "required_probes": ["count-exactly-at-threshold", "count-one-below-threshold", "camera-reset"]},
+    "C08": {"level": _EXPL, "units": ["A.pair"], "quick_s": 20, "thorough_s": 360,
+            "level_text": "relational: two real processors fed paired streams; no reference model, hence no modelling risk",
+            "level_note": _NOTE_A,
+            "technique": "seeded paired histories, differential execution of the real code",
+            "required_probes": ["pair-border", "pair-subthreshold", "pair-dynamic-threshold"]},
+    "C09": {"level": _EXPL, "units": ["A.ffc"], "quick_s": 20, "thorough_s": 420,
+            "level_text": "seeded FFC/reset histories driven by a simulated camera uptime clock; suppression rule on every frame, independence rule on paired histories",
+            "level_note": _NOTE_A,
+            "technique": "deterministic simulation: simulated camera clock + FFC events, paired-history differential",
+            "required_probes": ["first-frame-after-ffc-period", "paired-cut-ffc", "paired-cut-clear"]},
+    "C15": {"level": _EXPL, "units": ["A.dyn"], "quick_s": 20, "thorough_s": 360,
+            "level_text": "seeded histories; background/threshold invariants evaluated in-package after every frame",
+            "level_note": _NOTE_A,
+            "technique": "seeded history generation + invariants (simulator contributes histories only)",
+            "required_probes": ["background-reseeded", "threshold-recomputed-mean", "threshold-recomputed-min", "threshold-recomputed-max", "recording-start-with-dynamic-threshold"]},
 }
